@@ -149,6 +149,13 @@ func compareMethodInputParam(typ *types.Named) *types.Type {
 			continue
 		}
 		inputType := sig.Params().At(0).Type()
+		if !types.Identical(inputType, typ) && !types.Identical(inputType, types.NewPointer(typ)) {
+			// the generated code passes a value of the type or a pointer to one
+			iface, isIface := inputType.Underlying().(*types.Interface)
+			if !isIface || !types.Implements(types.NewPointer(typ), iface) {
+				continue
+			}
+		}
 		return &inputType
 	}
 	return nil
